@@ -359,4 +359,12 @@ def main():
 
 
 if __name__ == "__main__":
-    main()
+    try:
+        main()
+    except SystemExit:
+        raise
+    except BaseException as e:      # a crash of the checker is never a verdict about the code under check
+        import traceback
+        traceback.print_exc()
+        print(f"CHECKER-ERROR the checker itself failed: {type(e).__name__}: {e}")
+        sys.exit(3)
